@@ -384,6 +384,10 @@ def run(chk, tier, seed, replay):
         reqs = [x for x in reqs if x["key"] == str(want)]
     K = 4 if tier == "quick" else 16
     binp = vlib.build_inproc()
+    # the LAST process runs the harness built without debug assertions / overflow checks (the proc-macro crate of a release
+    # build): the tokens are a function of the derive input, not of the profile the macro crate was compiled with
+    binp_noassert = vlib.build_inproc_noassert()
+    K += 1
     rnd = random.Random(seed)
     events = []
     for pid in range(K):
@@ -406,7 +410,7 @@ def run(chk, tier, seed, replay):
             penv.update({"RUSTUP_TOOLCHAIN": "nightly-x86_64-unknown-linux-gnu", "TZ": "Pacific/Kiritimati", "CARGO_PKG_NAME": "other", "PROFILE": "release"})
         elif pid % 4 == 3:
             penv.update({"RUSTUP_TOOLCHAIN": "stable-x86_64-unknown-linux-gnu", "RUSTC_BOOTSTRAP": "0", "CARGO_CRATE_NAME": "zz", "DEBUG": "true"})
-        p = subprocess.run([binp, "expand"], input=inp.encode(), stdout=subprocess.PIPE, stderr=subprocess.PIPE, timeout=900, env=penv,
+        p = subprocess.run([binp_noassert if pid == K - 1 else binp, "expand"], input=inp.encode(), stdout=subprocess.PIPE, stderr=subprocess.PIPE, timeout=900, env=penv,
                            cwd=["/", os.path.expanduser("~"), vlib.WORK, "/tmp"][pid % 4])
         if p.returncode != 0:
             raise vlib.ToolError(f"harness exit {p.returncode}: {p.stderr.decode()[-400:]}")
